@@ -7,6 +7,17 @@ VALUES = ['"a"', '"b c"', '""', '"1"', "1", "2", "-3", "2.5", "2.50", "true", "f
 KINDS = {"s": "string", "i": "integer", "f": "float", "b": "boolean", "n": "null"}
 
 
+def sample_values(rng, k):
+    """k values of VALUES, pairwise different as enum items (2.5 and 2.50 are the same float)"""
+    out = []
+    for v in rng.sample(VALUES, len(VALUES)):
+        if len(out) >= k:
+            break
+        if not any(C2.enum_equal(v, w) for w in out):
+            out.append(v)
+    return out
+
+
 def kind_of(tok):
     if tok.startswith('"'):
         return "string"
@@ -89,7 +100,7 @@ def run(ctx):
     n = 1500 if quick else 8000
     ecases = []
     for _ in range(n):
-        vals = rng.sample(VALUES, rng.randint(1, 6))
+        vals = sample_values(rng, rng.randint(1, 6))
         text, comments = enum_text(rng, vals)
         ecases.append((vals, text, comments))
     outs = vc.impl_parallel(["enumrule"], [json.dumps({"text": t}) for _, t, _ in ecases])
@@ -116,9 +127,16 @@ def run(ctx):
     # duplicates are rejected
     dups = []
     for _ in range(20 if quick else 500):
-        vals = rng.sample(VALUES, rng.randint(1, 4))
+        vals = sample_values(rng, rng.randint(1, 4))
         vals.insert(rng.randrange(len(vals) + 1), rng.choice(vals))
         dups.append(enum_text(rng, vals)[0])
+    # the same number in two spellings is the same value (the validator compares numbers of one kind by value); 2 and 2.0 are different kinds
+    dups += ["[1.0, 1.00]", "[0, -0]", "[0.0, -0.0]", "[1.5, 1.50, 2.5]", '["a", 2.50, 2.5]', "[10, 1e1]"[:0] or "[7, 7]"]
+    for t, o in zip([d for d in dups if d.startswith("[") and "." in d or d == "[0, -0]"],
+                    vc.impl(["schema"], [json.dumps({"schema": "%s // {enum: %s}" % (d.strip("[]").split(",")[0].strip(), d), "ops": [["check"]]}) for d in dups if d.startswith("[") and "." in d or d == "[0, -0]"])):
+        ctx.evaluations += 1
+        if json.loads(o)[0] == "ok" and len(ctx.violations) < 40:
+            ctx.report("inline enum list with a duplicated value (two spellings of one number) is accepted: %r" % t[:100], "c18d:inline" + t, {"enum": t}, case=t)
     for t, o in zip(dups, vc.impl_parallel(["enumrule"], [json.dumps({"text": t}) for t in dups])):
         ctx.evaluations += 1
         if json.loads(o)[0] == "ok" and len(ctx.violations) < 40:
@@ -201,7 +219,7 @@ def run(ctx):
     # known finding: the example generator ignores the word-boundary assertions \b and \B (its example for /\Bfoo/ is "foo"), so the example of such a type may not
     # match and Check of a schema using the type then fails on the generated example
     ctx.classifiers["regex_example_word_boundary"] = lambda case: isinstance(case, str) and re.search(r"\\[bB]", case) is not None
-    pats = [rand_pattern(rng) for _ in range(1200 if quick else 6000)] + ["a\\\\", "^C:\\\\", "a\\/b", "[a-c]+\\\\", "[^\\x00-\\x7F]+", "^[^\\x00-\\x7f]$", "\\Bfoo", "foo\\B", "^\\B\\d{3}$", "a\\bb?", "\\bx\\b"]
+    pats = [rand_pattern(rng) for _ in range(1200 if quick else 6000)] + ["a\\\\", "^C:\\\\", "a\\/b", "[a-c]+\\\\", "[^\\x00-\\x7F]+", "^[^\\x00-\\x7f]$", "[\\x{D7FF}-\\x{E000}]", "a[\\x{D000}-\\x{EFFF}]", "\\Bfoo", "foo\\B", "^\\B\\d{3}$", "a\\bb?", "\\bx\\b"]
     rlines = [json.dumps({"text": "/%s/%s" % (p, rng.choice(["", " trailing text", "\nNEXT /x/"]))}) for p in pats]
     routs = vc.impl_parallel(["regextype"], rlines)
     mlines = [json.loads(l)["text"].encode().hex() for l in rlines]
@@ -212,16 +230,21 @@ def run(ctx):
         ctx.evaluations += 1
         if "\\" in p:
             ctx.nontrivial.add(p)
+        pyre = True
         try:
             re.compile(p)
         except re.error:
-            continue
+            if "\\x{" not in p:
+                continue
+            pyre = False          # RE2 syntax python does not know (\x{...}): the library's own verdict on its example is still checked
         ok = r[0] == "ok" and r[1] == str(len(p) + 2) and len(r) >= 4 and r[2] == "P:" + p and r[3].endswith(":true")
         if not ok and len(ctx.violations) < 40:
             ctx.report("regex type /%s/: Check %s, Len %s (token is %d bytes), %s" % (p, r[0], r[1], len(p) + 2, r[2:]), "c18r:" + p, {"pattern": p, "result": r}, case=p)
             continue
         if m is not None and m != "%d %s" % (len(p) + 2, p.encode().hex() or "-") and len(ctx.violations) < 40:
             ctx.report("Coq model of the /P/ token on %r says %s" % (json.loads(l)["text"], m), "c18rm:" + p, {"pattern": p, "model": m}, no_input=True)
+        if not pyre:
+            continue
         ex = bytes.fromhex(r[3].split(":")[1]).decode("utf-8", "replace")
         strs = sample_strings(rng, p)
         docs = [json.dumps(s) for s, _ in strs]
